@@ -149,13 +149,37 @@ fn run_history(rec: &mut Rec, rng: &mut Rng, expr: &str, sets: &Sets) {
         }
         rec.eval();
         rec.api("CronSchedule::next");
+        let Some((clk, _)) = sane_value(clock as i128 * NS, 0) else {
+            rec.bin(super::diff::SKIP_START);
+            return;
+        };
         let r = trap(|| {
-            astrolabe::verif::pin_now(Some(mk(clock as i128 * NS)));
+            astrolabe::verif::pin_now(Some(clk));
             let a = sched.next();
             let b = clone.as_mut().map(|c| c.next());
             astrolabe::verif::pin_now(None);
-            (a.map(|d| (read(&d), offset_secs(&d), d.second(), d.nano())), b.map(|x| x.map(|d| read(&d))))
+            // results are read only if they are canonical values (read like an independently built value)
+            let ta = match &a {
+                Some(d) => super::diff::read_checked(d).is_some(),
+                None => true,
+            };
+            let tb = match &b {
+                Some(Some(d)) => super::diff::read_checked(d).is_some(),
+                _ => true,
+            };
+            if !(ta && tb) {
+                return None;
+            }
+            Some((a.map(|d| (read(&d), offset_secs(&d), d.second(), d.nano())), b.map(|x| x.map(|d| read(&d)))))
         });
+        let r = match r {
+            Ok(None) => {
+                rec.bin(super::diff::SKIP_EXPECTED);
+                return;
+            }
+            Ok(Some(x)) => Ok(x),
+            Err(p) => Err(p),
+        };
         match r {
             Err(p) => {
                 events.push(Event { clock_s: clock, returned: None, expected_min: expected });
@@ -280,12 +304,27 @@ pub fn run(ctx: &Ctx) -> PropResult {
             let sec = if idx % 2 == 0 { 0 } else { 59 };
             rec.eval();
             rec.cur_idx = idx;
+            let Some((clk, _)) = sane_value((minute * 60 + sec) as i128 * NS, 0) else {
+                rec.bin(super::diff::SKIP_START);
+                continue;
+            };
             let got = trap(|| {
-                astrolabe::verif::pin_now(Some(mk((minute * 60 + sec) as i128 * NS)));
-                let r = CronSchedule::parse(expr).ok().and_then(|mut s| s.next()).map(|d| read(&d));
+                astrolabe::verif::pin_now(Some(clk));
+                let r = CronSchedule::parse(expr).ok().and_then(|mut s| s.next());
                 astrolabe::verif::pin_now(None);
-                r
+                match r {
+                    Some(d) => super::diff::read_checked(&d).map(Some),
+                    None => Some(None),
+                }
             });
+            let got = match got {
+                Ok(None) => {
+                    rec.bin(super::diff::SKIP_EXPECTED);
+                    continue;
+                }
+                Ok(Some(x)) => Ok(x),
+                Err(p) => Err(p),
+            };
             match got {
                 Ok(Some(x)) if x == expected as i128 * MIN_NS => rec.bin(carry_level(minute, expected)),
                 Ok(other) => rec.violation(format!("C17|every-start|next|wrong-first-result|{}", carry_level(minute, expected)), || json!({"expression": expr, "clock": show((minute * 60 + sec) as i128 * NS), "model": show(expected as i128 * MIN_NS), "returned": other.map(show)})),
